@@ -673,6 +673,8 @@ class Interp:
                 if n.attr == "ndim" and base.shape is not None:
                     return len(base.shape)
                 return ('method', base, n.attr)
+            if isinstance(base, dict) and n.attr in base:
+                return base[n.attr]      # client-supplied symbolic object
             return Opaque("attribute %s of %r" % (n.attr, base))
         if isinstance(n, ast.Call):
             return self.call(n, env)
